@@ -125,6 +125,20 @@ class Run:
 
     # --- finishing
     def finish(self):
+        if getattr(self, "replay", None):
+            rule, key, path = self.replay
+            hits = [f for f in self.findings if f.rule == rule and f.key == key]
+            for f in hits:
+                print(str(f))
+            for e in self.errors:
+                print("CHECKER-ERROR property=%s %s" % (self.prop, e))
+            if hits:
+                print("VIOLATION property=%s replay=%s" % (self.prop, path))
+                return 1
+            if self.errors:
+                return 2
+            print("REPLAY property=%s rule=%s key=%s: not reproduced on the current tree" % (self.prop, rule, key))
+            return 0
         known, fixed = load_known()
         new = []
         known_hits = []
